@@ -103,8 +103,71 @@ def excluded(spec):
 
 
 @st.composite
+def phased_circuits(draw, tier, small=False):
+    """ Preparations and consumptions interleaved with gates on
+    distinguishable wires: prepare, act, consume one qubit (post-select /
+    discard / measure), prepare another one somewhere, act, ..., measure. """
+    scan, layers = [], []
+
+    def add(b, off):
+        layers.append([b, off])
+        scan[off:off + len(specs.bdom(b))] = specs.bcod(b)
+
+    def qubits():
+        return [i for i, w in enumerate(scan) if w[0] == "qubit"]
+
+    def unitaries(k):
+        for _ in range(k):
+            qs = qubits()
+            adj = [i for i in qs if i + 1 < len(scan)
+                   and scan[i + 1][0] == "qubit"]
+            if not qs:
+                return
+            kind = draw(st.sampled_from(
+                ["one", "one", "rot"] + (["two", "two", "swap"] if adj
+                                         else [])))
+            if kind == "one":
+                add({"k": "g", "g": draw(st.sampled_from(
+                    ["X", "H", "Z", "Y", "S", "T"]))},
+                    draw(st.sampled_from(qs)))
+            elif kind == "rot":
+                add({"k": "g", "g": draw(st.sampled_from(["Rx", "Rz"])),
+                     "a": [draw(st.integers(-8, 8)) / 8]},
+                    draw(st.sampled_from(qs)))
+            elif kind == "two":
+                add({"k": "g", "g": draw(st.sampled_from(["CX", "CZ"]))},
+                    draw(st.sampled_from(adj)))
+            else:
+                off = draw(st.sampled_from(adj))
+                add({"k": "swap", "l": scan[off], "r": scan[off + 1]}, off)
+    n = draw(st.integers(2, 2 if small else 3))
+    add({"k": "g", "g": "Ket", "a": [draw(st.integers(0, 1))
+                                       for _ in range(n)]}, 0)
+    unitaries(draw(st.integers(1, 3)))
+    for _ in range(draw(st.integers(1, 1 if small else 2))):
+        qs = qubits()
+        if len(qs) >= 1 and len(scan) <= 4:
+            q = draw(st.sampled_from(qs))
+            kind = draw(st.sampled_from(["bra", "discard", "measure"]))
+            if kind == "bra":
+                add({"k": "g", "g": "Bra", "a": [draw(st.integers(0, 1))]}, q)
+            elif kind == "discard":
+                add({"k": "g", "g": "Discard", "a": ["qubit"]}, q)
+            else:
+                add({"k": "g", "g": "Measure", "a": [1, True, False]}, q)
+        if len(scan) <= 4:
+            add({"k": "g", "g": "Ket", "a": [draw(st.integers(0, 1))]},
+                draw(st.integers(0, len(scan))))
+        unitaries(draw(st.integers(0, 2)))
+    for q in reversed(qubits()):
+        if draw(st.integers(0, 4)) > 0:
+            add({"k": "g", "g": "Measure", "a": [1, True, False]}, q)
+    return {"cls": "circuit", "dom": [], "layers": layers}
+
+
+@st.composite
 def export_cases(draw, tier):
-    spec = draw(export_circuits(tier))
+    spec = draw(st.one_of(export_circuits(tier), phased_circuits(tier)))
     # exclusion by construction: truncate before the first trigger
     while spec["layers"] and excluded(spec):
         spec = dict(spec, layers=spec["layers"][:-1])
@@ -193,6 +256,17 @@ def check_export(case):
     return dict(nt=nontrivial_export(spec), labels=sorted({
         b.get("g", "swap") for b, _ in spec["layers"]}),
         show="{} -> {!r}".format(common.show(d, 200), tk)[:400])
+
+
+@st.composite
+def roundtrip_cases(draw, tier):
+    """ As export_cases, with fewer qubits: the imported circuit keeps every
+    qubit alive to the end, so its evaluation grows with all of them. """
+    spec = draw(st.one_of(export_circuits(tier),
+                          phased_circuits(tier, small=True)))
+    while spec["layers"] and excluded(spec):
+        spec = dict(spec, layers=spec["layers"][:-1])
+    return {"d": spec}
 
 
 def check_roundtrip(case):
@@ -348,7 +422,7 @@ def selftest():
 core.register("C13", [
     Facet("export", export_cases, check_export, n_quick=640, shards_quick=8,
           rule=RULE),
-    Facet("roundtrip", export_cases, check_roundtrip, n_quick=300,
+    Facet("roundtrip", roundtrip_cases, check_roundtrip, n_quick=300,
           shards_quick=4, rule="from_tk(to_tk(c)) is well-typed and has "
           "c's mixed evaluation"),
     Facet("import", import_cases, check_import, n_quick=300, shards_quick=4,
